@@ -305,14 +305,173 @@ func fragmentText(f *font.Font, data []byte) (string, error) {
 	return frags[0].Text, nil
 }
 
+// Reference normalisation -----------------------------------------------------
+//
+// golang.org/x/text/unicode/norm (v0.16.0, the version tabula is built with)
+// composes a supplementary-plane starter with a following combining mark as
+// if the starter were the BMP character with the same low 16 bits:
+// NFC(U+E0112 U+0300) = U+1E14, because U+0112 + U+0300 = U+1E14. tabula
+// inherits this through font.NormalizeUnicode (known finding
+// C07-nfc-supp-before-mark). The oracle therefore never lets x/text see such a
+// pair: supplementary code points that take no part in normalisation at all
+// ("inert": combining class 0, no decomposition, never the first or second
+// element of a canonical composition) are copied through and only the text
+// between them is given to x/text.
+
+// supplementary starters that are the first element of a canonical composition (DerivedNormalizationProps, Unicode 15)
+var composingSupp = map[rune]bool{0x11099: true, 0x1109B: true, 0x110A5: true, 0x11131: true, 0x11132: true,
+	0x11347: true, 0x114B9: true, 0x115B8: true, 0x115B9: true, 0x11935: true}
+
+func inertSupp(r rune) bool {
+	if r <= 0xFFFF {
+		return false
+	}
+	p := norm.NFC.PropertiesString(string(r))
+	return p.CCC() == 0 && p.Decomposition() == nil && p.BoundaryBefore() && !composingSupp[r]
+}
+
+// nfc is the reference NFC.
+func nfc(s string) string {
+	var out strings.Builder
+	var chunk []rune
+	flush := func() {
+		if len(chunk) > 0 {
+			out.WriteString(norm.NFC.String(string(chunk)))
+			chunk = chunk[:0]
+		}
+	}
+	for _, r := range s {
+		if inertSupp(r) {
+			flush()
+			out.WriteRune(r)
+		} else {
+			chunk = append(chunk, r)
+		}
+	}
+	flush()
+	return out.String()
+}
+
+// combinesBackward: r may interact with the character before it under normalisation.
+func combinesBackward(r rune) bool {
+	return !norm.NFC.PropertiesString(string(r)).BoundaryBefore()
+}
+
+// suppBeforeMark is the generator feature of the known finding: a
+// supplementary-plane code point directly followed by a code point that
+// combines backward.
+func suppBeforeMark(s string) bool {
+	prev := rune(-1)
+	for _, r := range s {
+		if prev > 0xFFFF && combinesBackward(r) {
+			return true
+		}
+		prev = r
+	}
+	return false
+}
+
 func goodText(what, s string) error {
 	if !utf8.ValidString(s) {
 		return fmt.Errorf("%s is not valid UTF-8: %+q", what, s)
 	}
-	if !norm.NFC.IsNormalString(s) {
-		return fmt.Errorf("%s is not in normal form C: %+q (NFC %+q)", what, s, norm.NFC.String(s))
+	if nfc(s) != s {
+		return fmt.Errorf("%s is not in normal form C: %+q (NFC %+q)", what, s, nfc(s))
 	}
 	return nil
+}
+
+// saneRune replaces a supplementary code point the reference normalisation
+// cannot vouch for by a CJK ideograph that keeps the low byte (so that the
+// last-byte progression of a bfrange survives).
+func saneRune(r rune) rune { return 0x4E00 + (r & 0xFF) }
+
+// sanitizeTexts rewrites the targets of one block: supplementary code points
+// that are not inert are replaced, and - while the known finding
+// nfc-supp-before-mark is open - so is a supplementary code point directly
+// followed by a backward-combining one. For an offset range the same rune
+// positions are rewritten in every target.
+func sanitizeTexts(texts []string, uniform bool, avoidSuppMark bool) ([]string, bool) {
+	rs := make([][]rune, len(texts))
+	changed := false
+	bad := func(t []rune, k int) bool {
+		r := t[k]
+		if r <= 0xFFFF {
+			return false
+		}
+		if !inertSupp(r) {
+			return true
+		}
+		return avoidSuppMark && k+1 < len(t) && combinesBackward(t[k+1])
+	}
+	for i, s := range texts {
+		rs[i] = []rune(s)
+	}
+	if uniform {
+		n := len(rs[0])
+		for k := 0; k < n; k++ {
+			any := false
+			for _, t := range rs {
+				if k < len(t) && bad(t, k) {
+					any = true
+				}
+			}
+			if any {
+				for _, t := range rs {
+					if k < len(t) && t[k] > 0xFFFF {
+						t[k] = saneRune(t[k])
+						changed = true
+					}
+				}
+			}
+		}
+	} else {
+		for _, t := range rs {
+			for k := range t {
+				if bad(t, k) {
+					t[k] = saneRune(t[k])
+					changed = true
+				}
+			}
+		}
+	}
+	out := make([]string, len(texts))
+	for i, t := range rs {
+		out[i] = string(t)
+	}
+	return out, changed
+}
+
+// sanitizeCMap applies sanitizeTexts to every block; an offset range that no
+// longer follows the last-byte rule becomes an array range. noSupp removes
+// every supplementary code point.
+func sanitizeCMap(cm *cmapw.CMap, avoidSuppMark, noSupp bool) {
+	for bi := range cm.Blocks {
+		b := &cm.Blocks[bi]
+		texts, _ := sanitizeTexts(b.Texts, b.Kind == cmapw.RangeOffset, avoidSuppMark)
+		if noSupp {
+			for i, s := range texts {
+				r := []rune(s)
+				for k := range r {
+					if r[k] > 0xFFFF {
+						r[k] = saneRune(r[k])
+					}
+				}
+				texts[i] = string(r)
+			}
+		}
+		b.Texts = texts
+		if b.Kind == cmapw.RangeOffset {
+			want, ok := cmapw.RangeTexts(texts[0], len(texts))
+			same := ok
+			for i := 0; same && i < len(want); i++ {
+				same = want[i] == texts[i]
+			}
+			if !same {
+				b.Kind = cmapw.RangeArray
+			}
+		}
+	}
 }
 
 // ---------------------------------------------------------------------------
@@ -343,7 +502,7 @@ func checkCMap(c CMapCase) error {
 		if !utf8.ValidString(got) {
 			return fmt.Errorf("LookupString(<%0*X>) is invalid UTF-8 %+q\n%s", 2*c.CMap.Width, code, got, prog)
 		}
-		if norm.NFC.String(got) != norm.NFC.String(texts[i]) {
+		if nfc(got) != nfc(texts[i]) {
 			return fmt.Errorf("LookupString(<%0*X>) = %+q, the CMap says %+q\n%s", 2*c.CMap.Width, code, got, texts[i], prog)
 		}
 	}
@@ -355,8 +514,8 @@ func checkCMap(c CMapCase) error {
 		data = append(data, c.CMap.CodeBytes(codes[k])...)
 		want.WriteString(texts[k])
 	}
-	wantN := norm.NFC.String(want.String())
-	if got := cm.LookupString(data); norm.NFC.String(got) != wantN {
+	wantN := nfc(want.String())
+	if got := cm.LookupString(data); nfc(got) != wantN {
 		return fmt.Errorf("LookupString(<%X>) = %+q, the CMap says %+q\n%s", data, got, want.String(), prog)
 	}
 	// through the font: ToUnicode wins over /Encoding; output normalised
@@ -412,6 +571,17 @@ func genCMapCase(t *rapid.T) CMapCase {
 	o := cmapw.GenOpts{}
 	o.NoMultiUnitOffset = vr.Off("cmap-offset-multiunit")
 	cm, classes := cmapw.Gen(t, o)
+	avoid := vr.Off("nfc-supp-before-mark")
+	if avoid {
+		for _, b := range cm.Blocks {
+			for _, s := range b.Texts {
+				if suppBeforeMark(s) {
+					vr.Want("nfc-supp-before-mark", true) // counted exclusion
+				}
+			}
+		}
+	}
+	sanitizeCMap(&cm, avoid, false)
 	f := cmapw.GenFormat(t)
 	if vr.Off("cmap-layout-tokens") && f.Layout == "tokens" {
 		vr.Want("cmap-layout-tokens", true)
@@ -433,10 +603,20 @@ func genCMapCase(t *rapid.T) CMapCase {
 	}
 	c := CMapCase{CMap: cm, Format: f}
 	c.Font = genFontSpec(t, cm.Width, true)
-	codes, _ := cm.Entries()
+	codes, texts := cm.Entries()
 	n := rapid.IntRange(1, 12).Draw(t, "nLookups")
+	sofar := ""
 	for i := 0; i < n; i++ {
-		c.Lookups = append(c.Lookups, rapid.IntRange(0, len(codes)-1).Draw(t, "lookup"))
+		k := rapid.IntRange(0, len(codes)-1).Draw(t, "lookup")
+		if avoid && suppBeforeMark(sofar+texts[k]) {
+			vr.Want("nfc-supp-before-mark", true)
+			continue
+		}
+		sofar += texts[k]
+		c.Lookups = append(c.Lookups, k)
+	}
+	if len(c.Lookups) == 0 {
+		c.Lookups = []int{0}
 	}
 	c.Program = string(cmapw.Write(cm, f))
 	c.Labels = []string{fmt.Sprintf("width:%d", cm.Width), "layout:" + f.Layout, fmt.Sprintf("eol:%q", f.EOL), fmt.Sprintf("gap:%q", f.Gap), "via:" + c.Font.Via, "header:" + f.Header}
@@ -492,7 +672,7 @@ func metaCMap(c CMapCase) vr.Meta {
 }
 
 func TestCMaps(t *testing.T) {
-	vr.Prop(t, "cmap", vr.N(12000, 300000), genCMapCase, metaCMap, checkCMap)
+	vr.Prop(t, "cmap", vr.N(9000, 300000), genCMapCase, metaCMap, checkCMap)
 }
 
 // ---------------------------------------------------------------------------
@@ -533,9 +713,9 @@ func checkUTF16(c UTF16Case) error {
 		bom = []byte{0xFF, 0xFE}
 		name, dec = "DecodeUTF16LE", font.DecodeUTF16LE
 	}
-	want := norm.NFC.String(s)
+	want := nfc(s)
 	got := dec(append([]byte{}, body...))
-	if !utf8.ValidString(got) || norm.NFC.String(got) != want {
+	if !utf8.ValidString(got) || nfc(got) != want {
 		return fmt.Errorf("%s(%X) = %+q, want %+q", name, body, got, s)
 	}
 	for _, enc := range []string{"WinAnsiEncoding", "MacRomanEncoding", "Identity-H"} {
@@ -585,8 +765,16 @@ func genUTF16(t *rapid.T) UTF16Case {
 	c := UTF16Case{LE: rapid.Bool().Draw(t, "le")}
 	n := rapid.IntRange(0, 12).Draw(t, "len")
 	seen := map[string]bool{}
+	avoid := vr.Off("nfc-supp-before-mark")
 	for i := 0; i < n; i++ {
 		r, cl := genRune(t)
+		if r > 0xFFFF && !inertSupp(rune(r)) {
+			r = 0x1F600 // keep to code points the reference normalisation can vouch for
+		}
+		if avoid && i > 0 && c.Runes[i-1] > 0xFFFF && combinesBackward(rune(r)) {
+			vr.Want("nfc-supp-before-mark", true)
+			r, cl = 'x', "ascii"
+		}
 		c.Runes = append(c.Runes, r)
 		seen["rune:"+cl] = true
 	}
@@ -613,19 +801,19 @@ func metaUTF16(c UTF16Case) vr.Meta {
 }
 
 func TestUTF16(t *testing.T) {
-	vr.Prop(t, "utf16", vr.N(12000, 200000), genUTF16, metaUTF16, checkUTF16)
+	vr.Prop(t, "utf16", vr.N(8000, 200000), genUTF16, metaUTF16, checkUTF16)
 }
 
 // ---------------------------------------------------------------------------
 // (d) arbitrary bytes, arbitrary font configuration: valid UTF-8 in NFC
 
 type InvariantCase struct {
-	Data    pdfsyn.Bytes  `json:"data"`
-	Font    FontSpec      `json:"font"`
-	CMap    *cmapw.CMap   `json:"cmap,omitempty"`
-	Format  *cmapw.Format `json:"format,omitempty"`
-	Unset   bool          `json:"unset_encoding"` // Font.Encoding cleared after construction (documented fallback: raw bytes)
-	Labels  []string      `json:"labels"`
+	Data   pdfsyn.Bytes  `json:"data"`
+	Font   FontSpec      `json:"font"`
+	CMap   *cmapw.CMap   `json:"cmap,omitempty"`
+	Format *cmapw.Format `json:"format,omitempty"`
+	Unset  bool          `json:"unset_encoding"` // Font.Encoding cleared after construction (documented fallback: raw bytes)
+	Labels []string      `json:"labels"`
 }
 
 func checkInvariant(c InvariantCase) error {
@@ -660,11 +848,14 @@ func checkInvariant(c InvariantCase) error {
 func genInvariant(t *rapid.T) InvariantCase {
 	c := InvariantCase{}
 	width := 1
+	// while the x/text normalisation finding is open no supplementary code point can reach the output
+	avoid := vr.Off("nfc-supp-before-mark")
 	withCMap := rapid.IntRange(0, 2).Draw(t, "withCMap") > 0
 	if withCMap {
 		o := cmapw.GenOpts{MaxBlocks: 4, MaxRun: 8}
 		o.NoMultiUnitOffset = vr.Off("cmap-offset-multiunit")
 		cm, _ := cmapw.Gen(t, o)
+		sanitizeCMap(&cm, avoid, avoid)
 		f := cmapw.GenFormat(t)
 		c.CMap, c.Format = &cm, &f
 		width = cm.Width
@@ -674,7 +865,11 @@ func genInvariant(t *rapid.T) InvariantCase {
 	switch rapid.IntRange(0, 4).Draw(t, "dataClass") {
 	case 0: // a UTF-16 BOM followed by arbitrary (possibly ill-formed) code units
 		bom := rapid.SampledFrom([][]byte{{0xFE, 0xFF}, {0xFF, 0xFE}}).Draw(t, "bom")
-		c.Data = append(append(pdfsyn.Bytes{}, bom...), rapid.SliceOfN(rapid.SampledFrom([]byte{0xD8, 0xDC, 0x00, 0x41, 0xFF, 0xFE, 0xDF, 0x03, 0x65, 0x01}), 0, 9).Draw(t, "units")...)
+		alphabet := []byte{0xD8, 0xDC, 0x00, 0x41, 0xFF, 0xFE, 0xDF, 0x03, 0x65, 0x01}
+		if avoid {
+			alphabet = alphabet[1:] // no high surrogates
+		}
+		c.Data = append(append(pdfsyn.Bytes{}, bom...), rapid.SliceOfN(rapid.SampledFrom(alphabet), 0, 9).Draw(t, "units")...)
 		c.Labels = append(c.Labels, "data:bom")
 	case 1: // text that needs composition: letter + combining mark in the single-byte encodings
 		c.Data = pdfsyn.Bytes(rapid.SliceOfN(rapid.SampledFrom([]byte{'e', 'a', 'A', 'o', 0xB4, 0xA8, 0xAB, 0xAC, 0xC1, 0xC2, 0xC8, 0x60, 0x5E, 0x7E, 0x18, 0x1F}), 1, 10).Draw(t, "compose"))
@@ -706,7 +901,7 @@ func metaInvariant(c InvariantCase) vr.Meta {
 }
 
 func TestUTF8NFCInvariant(t *testing.T) {
-	vr.Prop(t, "utf8nfc", vr.N(12000, 200000), genInvariant, metaInvariant, checkInvariant)
+	vr.Prop(t, "utf8nfc", vr.N(8000, 200000), genInvariant, metaInvariant, checkInvariant)
 }
 
 func init() {
